@@ -372,6 +372,22 @@ fn check_dr<T: Tgt>(loc: &mut Local, x: &Ix, utc: RDt, off: i64, span: TimeDelta
                     witness(T::NAME, op.name(), &utc, off, &span, "Err".into(), "Ok".into()),
                 );
             }
+            // whatever count is given to the leap second, the direction is fixed: truncation never
+            // returns a later value, rounding up never an earlier one (order of the UTC readings)
+            if let Ok(r) = &got {
+                let (ru, _) = r.read();
+                let wrong = match op {
+                    Op::Trunc => ru > utc,
+                    Op::Up => ru < utc,
+                    _ => false,
+                };
+                if wrong {
+                    loc.violation(
+                        &format!("C17/{}/wrong-direction/leap-second-input", entry()),
+                        witness(T::NAME, op.name(), &utc, off, &span, if op == Op::Trunc { "a value not after the input".into() } else { "a value not before the input".into() }, show(&ru)),
+                    );
+                }
+            }
             continue;
         }
         let must_err = span_bad || (!wall_fits && !disagree);
